@@ -62,6 +62,21 @@ def cases(rng, tier):
         kk = f32(rng.choice([1, -1]) * rng.uniform(0.05, 20))
         yield ("poly stretch %s %s" % (hexcsv(cs), fhex(kk)), "stretch")
         yield ("poly addc %s %s" % (hexcsv(cs), fhex(rnd_val(rng))), "addc")
+    # --- the linear constructor's branch for a duration below FLT_EPSILON, the fixed-arity constructors (through
+    # "alt=" of every bezier case with <= 4 points), the 4-D wrappers and the optional output arguments
+    tiny = [0.0, -0.0, 1e-8, -1e-9, 1.1920929e-07, 1.1920928e-07, -1.1920929e-07, 1.2e-7, 5.9e-8]
+    for i in range(n // 10):
+        d = f32(rng.choice(tiny))
+        pts = [rnd_val(rng), rnd_val(rng)]
+        pu = [f32(rng.uniform(-2, 2)) for _ in range(3)] + us[:3]
+        yield ("poly bezier %s %s %s" % (fhex(d), hexcsv(pts), hexcsv(pu)), "bezier-tiny-duration")
+    for i in range(n // 5):
+        cs4 = [[rnd_val(rng) for _ in range(rng.choice([0, 1, 2, 4, 8]))] for _ in range(4)]
+        yield ("poly 4d %s %s %s %s %s %s" % (hexcsv(cs4[0]), hexcsv(cs4[1]), hexcsv(cs4[2]), hexcsv(cs4[3]), fhex(rnd_val(rng, 100)),
+                                             fhex(f32(rng.uniform(-2, 2)))), "poly4d")
+        cs = [rnd_val(rng, 10) for _ in range(rng.choice([0, 1, 2, 3, 4, 4, 5, 8]))]
+        yield ("poly nullargs %s %s" % (hexcsv(cs), fhex(rnd_val(rng, 10))), "nullargs")
+    yield ("poly extrema -", "extrema-empty")
     # --- roots
     for i in range(n if tier == "thorough" else n // 16):
         deg = rng.choice([0, 1, 1, 2, 2, 3, 3, 3])
@@ -151,6 +166,8 @@ def compare(case, om, oi):
             return "coefficient count model=%d impl=%d" % (len(cm), len(ci))
         if n >= 2:
             M = [sum(abs(pts[i]) / (fact(i) * fact(j - i)) for i in range(j + 1)) * Fraction(fact(n), fact(n - j)) / abs(d) ** j for j in range(n + 1)]
+        elif n == 1 and abs(d) < Fraction(1, 1 << 23):
+            M = [abs(pts[0]) + abs(pts[1]), Fraction(0)]
         elif n == 1:
             M = [abs(pts[0]), (abs(pts[0]) + abs(pts[1])) / abs(d)]
         else:
@@ -166,7 +183,11 @@ def compare(case, om, oi):
         want_deg = max(len(cm) - 1, 0)
         if ti[2] != "deg=%d" % want_deg:
             return "degree model=%d impl=%s" % (want_deg, ti[2])
+        if len(ti) > 3 and ti[3] != "alt=same":
+            return "the fixed-arity constructor builds another polynomial than sb_poly_make_bezier: %s" % " ".join(ti[3:])[:200]
         return None
+    if k in ("4d", "nullargs"):
+        return None if om == oi else "model=%s impl=%s" % (om, oi[:200])
     if k == "eval":
         cs = [frac_of_bits(int(x, 16)) for x in _vals(w[2])]
         us = [frac_of_bits(int(x, 16)) for x in _vals(w[3])]
